@@ -209,6 +209,45 @@ def validated_sources(fn, g, taint, gs, at_block):
     return valid, dom
 
 
+_ARITH_PARAMS = {}
+
+
+def unchecked_arith_params(p, cf, depth=0):
+    """{param index: op} for the usize parameters of a library function that reach an unchecked Mul / Add / Sub / Shl in its body (or, two levels deep, in a callee's)"""
+    if cf.uid in _ARITH_PARAMS:
+        return _ARITH_PARAMS[cf.uid]
+    _ARITH_PARAMS[cf.uid] = {}
+    out = {}
+    flow = Flow(cf)
+    for blk in cf.blocks:
+        if blk["c"]:
+            continue
+        for s in blk["s"]:
+            if s[0] == "A" and s[2]["k"] == "Bin" and s[2]["op"] in ARITH:
+                for o in s[2]["o"]:
+                    for r in flow.op_roots(o):
+                        if r[0] == "param" and not r[2] and cf.local_ty(r[1])["s"] in ("usize", "u64", "u32"):
+                            out.setdefault(r[1], s[2]["op"])
+    if depth < 2:
+        for bi, t in cf.calls():
+            d = cf.callee_def(t) or {}
+            if not d.get("u", "").startswith("poulpy_"):
+                continue
+            for x in p.targets(cf, t):
+                c2 = p.fn(x)
+                if c2 is None or not c2.blocks or c2.uid == cf.uid:
+                    continue
+                sub = unchecked_arith_params(p, c2, depth + 1)
+                for ai, a in enumerate(t["a"]):
+                    if ai + 1 in sub:
+                        for r in flow.op_roots(a):
+                            if r[0] == "param" and not r[2] and cf.local_ty(r[1])["s"] in ("usize", "u64", "u32"):
+                                out.setdefault(r[1], sub[ai + 1] + " in " + c2.name)
+                break
+    _ARITH_PARAMS[cf.uid] = out
+    return out
+
+
 def check_reader(p, res, im, fn):
     fkey = fn.pretty
     g = CFG(fn)
@@ -257,6 +296,33 @@ def check_reader(p, res, im, fn):
                 res.bad("SER-1", fkey, "arith:%s:%s" % (op.replace("WithOverflow", ""), "*".join(sorted(nm(x) for x in srcs))),
                         "%s: unchecked `%s` on header field(s) %s read from the stream (overflow panics in dev builds and wraps in release builds before any validation)"
                         % (fkey, op, sorted(nm(x) for x in srcs)), site=fn.where(s[3]))
+    # unvalidated header values handed to a library function that multiplies / adds them unchecked (e.g. `VecZnx::bytes_of(n, cols, size)`)
+    for bi, t in fn.calls():
+        if bi not in g.reach:
+            continue
+        d = fn.callee_def(t) or {}
+        if not d.get("u", "").startswith("poulpy_") or d.get("n") in ("checked_len",):
+            continue
+        for x in p.targets(fn, t):
+            cf = p.fn(x)
+            if cf is None or not cf.blocks:
+                continue
+            arith_params = unchecked_arith_params(p, cf)
+            for ai, a in enumerate(t["a"]):
+                if ai + 1 not in arith_params:
+                    continue
+                srcs = taint.tainted_sources(a)
+                if not srcs:
+                    continue
+                n1 += 1
+                valid, dom = validated_sources(fn, g, taint, gs, bi)
+                if srcs <= valid:
+                    res.ok("SER-1")
+                else:
+                    res.bad("SER-1", fkey, "arith-in-callee:%s:%s" % (cf.name, "+".join(sorted(nm(y) for y in srcs))),
+                            "%s: header field(s) %s read from the stream are handed unvalidated to %s, which computes with them unchecked (`%s`): overflow panics in dev builds and wraps in "
+                            "release builds, so a corrupted header passes the length comparison" % (fkey, sorted(nm(y) for y in srcs), cf.pretty, arith_params[ai + 1]), site=fn.where(t["l"]))
+            break
     # allocation lengths and slice bounds
     for bi, t in fn.calls():
         if bi not in g.reach:
